@@ -140,6 +140,17 @@ def setups(draw, dim=None, nthermo=(1, 2), max_mobile=3, p_catalogue=0.5, names=
     out = {"recipe": rec, "chem": 0, "k": k, "closest": 0, "Nthermo": N}
     if nvstars_estimate(crys, 0, k, N) > NV_CAP:
         out["costly"] = True
+    if len(rec["basis"]) > 1 and draw(st.booleans()):
+        # the same crystal with the species listed in the opposite order: the vacancy sublattice is then the LAST chemistry
+        # (which species diffuses is the caller's choice; all cost estimates above were made on the equivalent original listing)
+        rec = dict(rec)
+        rec["basis"] = list(reversed(rec["basis"]))
+        if rec.get("chemistry"):
+            rec["chemistry"] = list(reversed(rec["chemistry"]))
+        if rec.get("spins"):
+            rec["spins"] = list(reversed(rec["spins"]))
+        out["recipe"] = rec
+        out["chem"] = len(rec["basis"]) - 1
     if redrawn:
         out["redrawn"] = redrawn
     return out
@@ -223,7 +234,7 @@ def is_tracerlike(calc, data):
 
 
 def describe(calc, data=None):
-    cl = ["Nthermo%d" % calc.Nthermo, "vacWyckoff%d" % min(len(calc.sitelist), 3), "om0classes%d" % min(len(calc.om0_jn), 4),
+    cl = (["vacancy_species_not_first"] if calc.chem else []) + ["Nthermo%d" % calc.Nthermo, "vacWyckoff%d" % min(len(calc.sitelist), 3), "om0classes%d" % min(len(calc.om0_jn), 4),
           "originstates" if has_originstates(calc) else "no_originstates", "Nvstars<=%d" % (10 * (1 + calc.vkinetic.Nvstars // 10))]
     if data is not None:
         if multiwyckoff_nonuniform_solute(calc, data):
